@@ -1,1 +1,132 @@
-"""C09 parser-level fuzz targets (filled in with the C09 check)."""
+"""C09 parser-level fuzz targets.  The oracle inside the target is the *caller contract*: a parser may
+return, or raise only what every one of its call sites catches; anything else would surface as a
+traceback (internal-error status) in a real audit."""
+import struct
+
+from fuzz.targets import register
+
+
+class _StubSocket:
+    """Feeds pre-cut segments to SSH_Socket.recv()."""
+
+    def __init__(self, data, seg):
+        self.data = bytearray(data)
+        self.seg = seg
+
+    def recv(self, n):
+        import socket
+        if not self.data:
+            raise socket.timeout('timed out')
+        k = min(n, len(self.data), self.seg or len(self.data))
+        d = bytes(self.data[:k])
+        del self.data[:k]
+        return d
+
+    def send(self, d):
+        return len(d)
+
+    def settimeout(self, t):
+        pass
+
+    def shutdown(self, how):
+        pass
+
+    def close(self):
+        pass
+
+
+class _ReplySock:
+    """What KexDH.recv_reply / send_init_gex need from an SSH_Socket."""
+
+    def __init__(self, pkts):
+        self.pkts = list(pkts)
+
+    def read_packet(self, sshv=2):
+        if self.pkts:
+            return self.pkts.pop(0)
+        return -1, b''
+
+    def write_byte(self, v):
+        pass
+
+    def write_int(self, v):
+        pass
+
+    def write_mpint2(self, v):
+        pass
+
+    def write_string(self, v):
+        pass
+
+    def send_packet(self):
+        pass
+
+
+def _sock(data, seg):
+    from ssh_audit.ssh_socket import SSH_Socket
+    from ssh_audit.outputbuffer import OutputBuffer
+    s = SSH_Socket(OutputBuffer(), 'h', 22)
+    s._SSH_Socket__sock = _StubSocket(data, seg)
+    return s
+
+
+@register('c09_parsers')
+def c09_parsers(data):
+    import contextlib
+    import io
+    from ssh_audit.kexdh import KexDHException, KexCurve25519_SHA256, KexGroupExchange_SHA256
+    from ssh_audit.outputbuffer import OutputBuffer
+    fails = []
+    if len(data) < 2:
+        return fails
+    sel, body = data[0] % 6, data[1:]
+    out = OutputBuffer()
+    try:
+        with contextlib.redirect_stdout(io.StringIO()):
+            if sel == 0:
+                try:
+                    KexCurve25519_SHA256(out).recv_reply(_ReplySock([(31, body)]))
+                except (KexDHException, struct.error, ValueError, IndexError):
+                    pass
+            elif sel == 1:
+                try:
+                    KexGroupExchange_SHA256(out).send_init_gex(_ReplySock([(31, body)]), 2048, 2048, 2048)
+                except (KexDHException, struct.error, ValueError, IndexError):
+                    pass
+            elif sel == 2:
+                from ssh_audit.ssh2_kex import SSH2_Kex
+                try:
+                    SSH2_Kex.parse(out, body)
+                except struct.error:
+                    pass
+            elif sel == 3:
+                from ssh_audit.ssh1_publickeymessage import SSH1_PublicKeyMessage
+                try:
+                    m = SSH1_PublicKeyMessage.parse(body)
+                    m.supported_ciphers, m.supported_authentications, m.host_key_fingerprint_data
+                except (struct.error, ValueError):
+                    pass
+            elif sel == 4:
+                seg = body[0] % 9 if body else 0
+                s = _sock(body[1:], seg)
+                try:
+                    t, p = s.read_packet(2 if (body[0] & 0x80) == 0 else 1)
+                    if not isinstance(t, int) or not isinstance(p, bytes):
+                        fails.append(['fuzz-read-packet-result-type', repr((t, p))[:100]])
+                except SystemExit as e:
+                    if e.code != 1:
+                        fails.append(['fuzz-read-packet-exit-code', repr(e.code)])
+            else:
+                seg = body[0] % 9 if body else 0
+                s = _sock(body[1:], seg)
+                b, hdr, err = s.get_banner()
+                if b is not None and not str(b).startswith('SSH-'):
+                    fails.append(['fuzz-banner-without-ssh-prefix', repr(str(b))[:100]])
+    except SystemExit as e:
+        fails.append(['fuzz-parser-called-exit', 'selector %d code %r' % (sel, e.code)])
+    except Exception as e:
+        import traceback
+        tb = traceback.extract_tb(e.__traceback__)
+        fr = [f for f in tb if '/ssh_audit/' in f.filename]
+        fails.append(['fuzz-uncaught:%s@%s:selector-%d' % (type(e).__name__, fr[-1].name if fr else '?', sel), repr(e)[:200]])
+    return fails
